@@ -87,17 +87,15 @@ __CPROVER_ensures(FSTK_KEEP(vg_k))
  * VERIF_CT_CALLEES — declared contracts (weak but true) of functions owned by other units
  * ======================================================================================= */
 #ifdef VERIF_CT_CALLEES
-/* the chomped line: spec-level snapshot of the first 16 bytes of the text chomp leaves behind */
-char   vg_line[16];
-size_t vg_gw_len;      /* ghost length of the word get_word returned */
-size_t vg_se_len;      /* ghost: a NUL position of the text shell_expand left in s */
+/* ghosts: env_conf.h (vgc.st: the chomped line vg_line = spec-level snapshot of the first 16 bytes of the text chomp
+ * leaves behind; vg_gw_len, vg_se_len) */
 
 #define VLINE_SNAP(i) (!((size_t) (i) < VREMAIN(s)) || vg_line[i] == s[i])
 /* spiftool_chomp (strings.c, C13): removes leading and trailing white space in place.
  * ASSUMES (as for libc string functions): s holds a NUL at or after s. */
 spif_charptr_t spiftool_chomp(spif_charptr_t s)
 __CPROVER_requires(s != NULL && __CPROVER_rw_ok(s, 1))
-__CPROVER_assigns(__CPROVER_object_from(s), vg_line, vg_seq, vg_t_chomp)
+__CPROVER_assigns(__CPROVER_object_from(s), vg_line, vgc.ev)
 __CPROVER_ensures(__CPROVER_return_value == s)
 __CPROVER_ensures(vg_seq == __CPROVER_old(vg_seq) + 1 && vg_t_chomp == vg_seq)
 /* result starts with a non-blank (or is empty); the ghost snapshot equals the text */
@@ -137,20 +135,20 @@ __CPROVER_ensures(!(index == 1 && VPLAINCH(str[0])) || __CPROVER_return_value ==
  * Spawns a process only after reading a backquote or matching %exec( . */
 spif_charptr_t spifconf_shell_expand(spif_charptr_t s)
 __CPROVER_requires(s != NULL && VREMAIN(s) >= CONFIG_BUFF && __CPROVER_rw_ok(s, CONFIG_BUFF))
-__CPROVER_assigns(__CPROVER_object_upto(s, CONFIG_BUFF), spifconf_vars, vg_se_len, vg_seq, vg_t_expand, vg_spawned, vg_saw_bq, vg_saw_exec)
+__CPROVER_assigns(__CPROVER_object_upto(s, CONFIG_BUFF), spifconf_vars, vg_se_len, vgc.ev, vgc.sp)
 __CPROVER_ensures(__CPROVER_return_value == s || __CPROVER_return_value == NULL)
 __CPROVER_ensures(vg_se_len < CONFIG_BUFF && s[vg_se_len] == 0)
-__CPROVER_ensures(vg_seq == __CPROVER_old(vg_seq) + 1 && vg_t_expand == vg_seq)
+__CPROVER_ensures(vg_seq == __CPROVER_old(vg_seq) + 1 && vg_t_expand == vg_seq && vg_t_chomp == __CPROVER_old(vg_t_chomp))
+__CPROVER_ensures(vg_saw_preproc == __CPROVER_old(vg_saw_preproc))
 __CPROVER_ensures(vg_spawned == __CPROVER_old(vg_spawned) || vg_saw_bq != __CPROVER_old(vg_saw_bq) || vg_saw_exec != __CPROVER_old(vg_saw_exec))
 ;
 /* spiftool_temp_file (file.c; proved in C11.temp_file): descriptor or -1; ftemplate rewritten
  * (at most len bytes, NUL-terminated); spawns nothing. */
 int spiftool_temp_file(spif_charptr_t ftemplate, size_t len)
 __CPROVER_requires(ftemplate != NULL && len > 0 && __CPROVER_rw_ok(ftemplate, len))
-__CPROVER_assigns(__CPROVER_object_upto(ftemplate, len), vg_umask_cur, vg_umask_calls, vg_mkstemp_umask, vg_mkstemp_tpl_ok, vg_mkstemp_calls,
-                  vg_mkstemp_fd, vg_fchmod_fd, vg_fchmod_mode, vg_fchmod_calls, vg_n3)
+__CPROVER_assigns(__CPROVER_object_upto(ftemplate, len), vgc.tf)
 __CPROVER_ensures(__CPROVER_return_value >= -1)
-__CPROVER_ensures(vg_n3 < len && ftemplate[vg_n3] == 0)
+__CPROVER_ensures(vg_tpl_len < len && ftemplate[vg_tpl_len] == 0)
 ;
 #endif /* VERIF_CT_CALLEES */
 
@@ -166,9 +164,7 @@ __CPROVER_ensures(vg_n3 < len && ftemplate[vg_n3] == 0)
  * validity obligations of strcasecmp.  vg_k is arbitrary, so every slot is checked.
  * ======================================================================================= */
 #ifdef VERIF_CT_LOOKUP
-int vg_lk_at_k;            /* outcome of the comparison with context[vg_k].name */
-unsigned long vg_lk;       /* last result of v_ctx_lookup */
-int vg_lk_hit;             /* outcome of the comparison at the returned index (0 when matched) */
+/* ghosts: env_conf.h (vgc.lk) */
 
 static unsigned long v_ctx_lookup(spif_charptr_t n)
 {
@@ -176,7 +172,7 @@ static unsigned long v_ctx_lookup(spif_charptr_t n)
     int r = 1;
 
     for (i = 0; i <= ctx_idx; i++)
-    __CPROVER_assigns(i, r, vg_cmp_last, vg_lk_at_k)
+    __CPROVER_assigns(i, r, vgc.lk)
     __CPROVER_loop_invariant(i <= (unsigned long) ctx_idx + 1)
     __CPROVER_loop_invariant(r != 0)
     __CPROVER_loop_invariant(!(vg_k < i) || vg_lk_at_k != 0)
@@ -199,7 +195,7 @@ static unsigned long v_ctx_lookup(spif_charptr_t n)
 static unsigned long v_ctx_lookup(spif_charptr_t n)
 __CPROVER_requires(CTXTAB_INV && VCSTR_FRESH(n, vg_n1))
 __CPROVER_requires(CTXNAME_AT(vg_k))
-__CPROVER_assigns(vg_cmp_last, vg_lk_at_k, vg_lk, vg_lk_hit)
+__CPROVER_assigns(vgc.lk)
 __CPROVER_ensures(__CPROVER_return_value <= (unsigned long) ctx_idx + 1 && vg_lk == __CPROVER_return_value)
 /* a returned index inside the table is a match; every earlier slot did not match */
 __CPROVER_ensures(__CPROVER_return_value > ctx_idx || vg_lk_hit == 0)
@@ -215,12 +211,11 @@ __CPROVER_ensures(!(vg_k < __CPROVER_return_value) || vg_lk_at_k != 0)
  * The fopen stub refuses a 256th nested file (C09's domain: nesting <= 255).
  * ======================================================================================= */
 #ifdef VERIF_CT_OPEN_FILE
-#define FGETS_GHOSTS vg_fg_budget, vg_fg_mid, vg_fg_nl, vg_fg_len, vg_fg_buf, vg_fg_ok, vg_fg_hdr, vg_deliverable
 FILE *spifconf_open_file(spif_charptr_t name)
 __CPROVER_requires(name == NULL || __CPROVER_r_ok(name, 1))
 __CPROVER_requires(libast_program_name != NULL && __CPROVER_r_ok(libast_program_name, 1))
 __CPROVER_requires(libast_program_version != NULL && __CPROVER_r_ok(libast_program_version, 1))
-__CPROVER_assigns(FGETS_GHOSTS, vg_open_streams)
+__CPROVER_assigns(vgc.fg, vg_open_streams)
 __CPROVER_ensures(__CPROVER_return_value == NULL ? vg_open_streams == __CPROVER_old(vg_open_streams)
                   : (vg_open_streams == __CPROVER_old(vg_open_streams) + 1 && fstate_idx < 255 &&
                      __CPROVER_is_fresh(__CPROVER_return_value, sizeof(FILE))))
@@ -288,10 +283,7 @@ __CPROVER_requires(vg_deliverable == vg_pl_calls + 1 && !vg_fg_mid)
 __CPROVER_assigns(__CPROVER_object_whole(buff), spifconf_vars)
 __CPROVER_assigns(ctx_state, ctx_state_idx, ctx_state_cnt, __CPROVER_object_whole(ctx_state))
 __CPROVER_assigns(fstate, fstate_idx, fstate_cnt, __CPROVER_object_whole(fstate))
-__CPROVER_assigns(vg_log, vg_nlog, vg_call_id, vg_call_h, vg_seq, vg_t_chomp, vg_t_expand, vg_line, vg_gw_len, vg_se_len, vg_cmp_last,
-                  vg_lk, vg_lk_at_k, vg_lk_hit, vg_spawned, vg_saw_preproc, vg_saw_bq, vg_saw_exec, vg_open_streams, vg_pl_calls, vg_n3,
-                  vg_umask_cur, vg_umask_calls, vg_mkstemp_umask, vg_mkstemp_tpl_ok, vg_mkstemp_calls, vg_mkstemp_fd,
-                  vg_fchmod_fd, vg_fchmod_mode, vg_fchmod_calls, FGETS_GHOSTS)
+__CPROVER_assigns(vgc)
 __CPROVER_frees(ctx_state, fstate)
 /* ---- E0: representation invariants are kept; one more parse_line call -------------------- */
 __CPROVER_ensures(CTXSTK_POST && FSTK_POST && fstate_idx >= 1)
